@@ -167,6 +167,14 @@ def _run_capture(unit, rec, dreye):
             if not _close(out, exp, sc):
                 rec.violation("a", sig, "dense pair differs from the trapezoid oracle", case, observed=out, expected=exp,
                               script=_script_capture(F0, S0, dom, trapz))
+            # integer-typed spectra (0/1 band-pass filters, photon counts): the same numbers as floats
+            Fi, Si = np.round(F0 * 4).astype(np.int64), np.round(S0 * 4).astype(np.int64)
+            rec.path()
+            outi, exci = _call(rec, dreye.calculate_capture, Fi, Si, **kw)
+            if exci is not None or not _close(outi, 16.0 * exp, sc):
+                rec.violation("a", dict(sig, dtype="int"), "integer-typed filters and signals: %s" % ("raised %r" % (exci,) if exci is not None else "result differs from the trapezoid oracle"), dict(cfg=cfg, pair="dense-int"),
+                              observed=outi, expected=16.0 * exp, script=_script_capture(Fi, Si, kw["domain"] if dkind == "scalar" else dom, trapz))
+            rec.outcome("dense-int/%s" % ("ok" if exci is None and _close(outi, 16.0 * exp, sc) else "bad"))
             # exact rational self-check of the oracle on one entry (oracle vs oracle: internal)
             # -- basis table --
             bad_a = bad_b = 0
